@@ -98,30 +98,47 @@ Proof.
   repeat (apply andb_true_iff in H as [H ?]).
   repeat match goal with H : byte_eqb _ _ = true |- _ => apply byte_eqb_eq in H end. congruence.
 Qed.
-Definition unit_ok (a : byte) : bool :=
-  col_eqb (InvMixColumn (MixColumn (Col a x00 x00 x00))) (Col a x00 x00 x00) &&
-  col_eqb (InvMixColumn (MixColumn (Col x00 a x00 x00))) (Col x00 a x00 x00) &&
-  col_eqb (InvMixColumn (MixColumn (Col x00 x00 a x00))) (Col x00 x00 a x00) &&
-  col_eqb (InvMixColumn (MixColumn (Col x00 x00 x00 a))) (Col x00 x00 x00 a).
-Lemma unit_ok_all a : unit_ok a = true.
-Proof. revert a. apply byte_sweep. vm_cast_no_check (eq_refl true). Qed.
+Lemma IMC_MC_unit0 a : InvMixColumn (MixColumn (Col a x00 x00 x00)) = Col a x00 x00 x00.
+Proof.
+  apply col_eqb_eq. revert a.
+  apply (byte_sweep (fun a => col_eqb (InvMixColumn (MixColumn (Col a x00 x00 x00))) (Col a x00 x00 x00))).
+  vm_cast_no_check (eq_refl true).
+Qed.
+Lemma IMC_MC_unit1 a : InvMixColumn (MixColumn (Col x00 a x00 x00)) = Col x00 a x00 x00.
+Proof.
+  apply col_eqb_eq. revert a.
+  apply (byte_sweep (fun a => col_eqb (InvMixColumn (MixColumn (Col x00 a x00 x00))) (Col x00 a x00 x00))).
+  vm_cast_no_check (eq_refl true).
+Qed.
+Lemma IMC_MC_unit2 a : InvMixColumn (MixColumn (Col x00 x00 a x00)) = Col x00 x00 a x00.
+Proof.
+  apply col_eqb_eq. revert a.
+  apply (byte_sweep (fun a => col_eqb (InvMixColumn (MixColumn (Col x00 x00 a x00))) (Col x00 x00 a x00))).
+  vm_cast_no_check (eq_refl true).
+Qed.
+Lemma IMC_MC_unit3 a : InvMixColumn (MixColumn (Col x00 x00 x00 a)) = Col x00 x00 x00 a.
+Proof.
+  apply col_eqb_eq. revert a.
+  apply (byte_sweep (fun a => col_eqb (InvMixColumn (MixColumn (Col x00 x00 x00 a))) (Col x00 x00 x00 a))).
+  vm_cast_no_check (eq_refl true).
+Qed.
 
 Lemma xor_byte_0_l a : x00 (+) a = a.
 Proof. apply b2n_inj. rewrite b2n_xor, b2n_x00. apply N.lxor_0_l. Qed.
 
+Definition col_units (a b c d : byte) : col :=
+  xor_col (xor_col (xor_col (Col a x00 x00 x00) (Col x00 b x00 x00)) (Col x00 x00 c x00)) (Col x00 x00 x00 d).
+Lemma col_decomp a b c d : Col a b c d = col_units a b c d.
+Proof.
+  unfold col_units. cbn [xor_col].
+  rewrite ?xor_byte_0_r, ?xor_byte_0_l, ?xor_byte_0_r. reflexivity.
+Qed.
+
 Lemma InvMixColumn_MixColumn c : InvMixColumn (MixColumn c) = c.
 Proof.
-  destruct c as [a b c d].
-  replace (Col a b c d) with
-    (xor_col (xor_col (xor_col (Col a x00 x00 x00) (Col x00 b x00 x00)) (Col x00 x00 c x00)) (Col x00 x00 x00 d))
-    by (cbn [xor_col]; rewrite ?xor_byte_0_r, ?xor_byte_0_l; reflexivity).
+  destruct c as [a b c d]. rewrite (col_decomp a b c d). unfold col_units.
   rewrite !MixColumn_xor, !InvMixColumn_xor.
-  pose proof (unit_ok_all a) as Ha. pose proof (unit_ok_all b) as Hb.
-  pose proof (unit_ok_all c) as Hc. pose proof (unit_ok_all d) as Hd.
-  unfold unit_ok in *.
-  repeat match goal with H : (_ && _) = true |- _ => apply andb_true_iff in H as [H ?] end.
-  repeat match goal with H : col_eqb _ _ = true |- _ => apply col_eqb_eq in H end.
-  congruence.
+  rewrite IMC_MC_unit0, IMC_MC_unit1, IMC_MC_unit2, IMC_MC_unit3. reflexivity.
 Qed.
 
 (* ---- the other steps ---------------------------------------------------------------- *)
@@ -168,14 +185,12 @@ Qed.
 
 (* ---- 5.3: InvCipher inverts Cipher, for every list of round keys -------------------- *)
 
-Lemma cipher_rounds_cons s k k' r :
-  cipher_rounds s (k :: k' :: r) =
-  cipher_rounds (AddRoundKey (MixColumns (ShiftRows (SubBytes s))) k) (k' :: r).
-Proof. reflexivity. Qed.
-Lemma inv_rounds_cons s k k' r :
-  inv_rounds s (k :: k' :: r) =
-  inv_rounds (InvMixColumns (AddRoundKey (InvSubBytes (InvShiftRows s)) k)) (k' :: r).
-Proof. reflexivity. Qed.
+Lemma cipher_rounds_cons s k l : l <> [] ->
+  cipher_rounds s (k :: l) = cipher_rounds (AddRoundKey (MixColumns (ShiftRows (SubBytes s))) k) l.
+Proof. destruct l; [contradiction|reflexivity]. Qed.
+Lemma inv_rounds_cons s k l : l <> [] ->
+  inv_rounds s (k :: l) = inv_rounds (InvMixColumns (AddRoundKey (InvSubBytes (InvShiftRows s)) k)) l.
+Proof. destruct l; [contradiction|reflexivity]. Qed.
 
 (* undoing rounds 1..Nr leaves the state as it was after ShiftRows o SubBytes of round 1 *)
 Lemma inv_rounds_cipher_rounds kn : forall ks s tail, tail <> [] ->
@@ -185,11 +200,9 @@ Proof.
   induction ks as [|k ks IH]; intros s tail Ht.
   - cbn [app rev cipher_rounds]. rewrite AddRoundKey_cancel. reflexivity.
   - cbn [rev]. rewrite <- app_assoc. cbn [app].
-    destruct (ks ++ [kn]) as [|k' r] eqn:E; [destruct ks; discriminate|].
-    rewrite cipher_rounds_cons, <- E.
+    rewrite cipher_rounds_cons by (destruct ks; discriminate).
     rewrite IH by discriminate.
-    destruct tail as [|t0 tl]; [contradiction|].
-    rewrite inv_rounds_cons.
+    rewrite inv_rounds_cons by exact Ht.
     rewrite InvShiftRows_ShiftRows, InvSubBytes_SubBytes, AddRoundKey_cancel, InvMixColumns_MixColumns.
     reflexivity.
 Qed.
@@ -197,9 +210,9 @@ Qed.
 Theorem InvCipher_Cipher ks s : InvCipher_rk ks (Cipher_rk ks s) = s.
 Proof.
   destruct ks as [|k0 ks]; [reflexivity|].
-  destruct (@exists_last _ ks) as [[mid [kn ->]]|Hnil].
-  - (* at least two round keys *)
-    2: { unfold InvCipher_rk, Cipher_rk. subst ks. cbn. apply AddRoundKey_cancel. }
+  destruct ks as [|k1 ks'].
+  - unfold InvCipher_rk, Cipher_rk. cbn. apply AddRoundKey_cancel.
+  - destruct (@exists_last _ (k1 :: ks') ltac:(discriminate)) as [mid [kn E]]. rewrite E.
     unfold InvCipher_rk, Cipher_rk.
     replace (rev (k0 :: mid ++ [kn])) with (kn :: rev mid ++ [k0])
       by (cbn [rev]; rewrite rev_app_distr; reflexivity).
